@@ -473,6 +473,7 @@ class SCase:
         self.model = self.drv.model
         self.start_opts = start_opts or {}
         self.rejected: Optional[str] = None
+        self.startup_crash: Optional[BaseException] = None
         self.shut = False
         self.quiescent = False
 
@@ -485,6 +486,12 @@ class SCase:
         except (CylcError, ParsecError) as exc:
             self.rejected = type(exc).__name__
             self.ctx.col.rejected += 1
+            return self
+        except Exception as exc:
+            # start-up died with an unexpected exception type on a workflow
+            # that may be perfectly valid: reported by crash_violations()
+            self.startup_crash = exc
+            self.rejected = 'startup-crash'
             return self
         if sim.crashed is not None or not sim.running:
             exc = sim.crashed or sim.shutdown_reason
@@ -520,6 +527,10 @@ class SCase:
         from cylc.flow.scheduler import SchedulerStop
         from vf.core import Violation, exc_sig
         sim = self.sim
+        if self.startup_crash is not None:
+            return [Violation(
+                f'{prop}:startup-crash:' + exc_sig(self.startup_crash),
+                f'scheduler start-up died with {self.startup_crash!r}')]
         reason = sim.shutdown_reason
         if sim.crashed is not None or (
                 reason is not None and not isinstance(reason, SchedulerStop)):
